@@ -3,6 +3,7 @@
    every answer of the implementation on the specification graph (translation validation). *)
 From Coq Require Import List Arith NArith ZArith Bool.
 From DC Require Import Common.AList Graph.UltraGraph Graph.Spec Graph.ShortestPath Graph.ShortestPathProofs.
+From DC Require Graph.BellmanFord Graph.Refine.
 Import ListNotations.
 Open Scope N_scope.
 
@@ -20,5 +21,33 @@ Theorem C15_accepted_none_is_unreachable : forall g s t,
   smem g s = false \/ smem g t = false \/ forall q, is_pathb g s t q = false.
 Proof. exact check_none_sound. Qed.
 
+(* ---- COMPLETENESS of the checker (Graph/BellmanFord.v) ---------------------------------------------------------------------
+   The checker's own reference distances (|nodes| rounds of Bellman-Ford relaxation) are closed under relaxation for every graph
+   whose edges join nodes - in particular for the abstraction of every graph the store model can reach ... *)
+Theorem C15_reference_distances_are_closed : forall (g : ugraph) s,
+  Refine.Inv g -> In s (keys (node_map g)) ->
+  closed (sedges (Refine.abs g)) (ref_dist (Refine.abs g) s) = true /\ dget (ref_dist (Refine.abs g) s) s = Some 0.
+Proof. exact BellmanFord.ref_dist_closed_reachable. Qed.
+
+(* ... hence on a well-formed specification graph (distinct edge keys, edges joining nodes, the start a node) the checker ACCEPTS
+   every correct answer: a real path of minimum total weight, and "nothing" when the target is absent or unreachable.  With the
+   soundness theorems above the checker decides the property exactly: a rejection is a violation, never an artefact. *)
+Theorem C15_minimal_path_is_accepted : forall g s,
+  NoDup (keys (sedges g)) -> In s (keys (snodes g)) ->
+  (forall e, In e (sedges g) -> In (BellmanFord.esrc e) (keys (snodes g)) /\ In (BellmanFord.edst e) (keys (snodes g))) ->
+  forall t p, smem g t = true -> is_pathb g s t p = true ->
+  (forall q, is_pathb g s t q = true -> path_weight g p <= path_weight g q) ->
+  check_answer g s t (Some p) = true.
+Proof. exact BellmanFord.check_some_complete. Qed.
+
+Theorem C15_nothing_is_accepted_when_unreachable : forall g s,
+  NoDup (keys (sedges g)) -> In s (keys (snodes g)) ->
+  (forall e, In e (sedges g) -> In (BellmanFord.esrc e) (keys (snodes g)) /\ In (BellmanFord.edst e) (keys (snodes g))) ->
+  forall t, (smem g t = false \/ forall q, is_pathb g s t q = false) -> check_answer g s t None = true.
+Proof. exact BellmanFord.check_none_complete. Qed.
+
+Print Assumptions C15_reference_distances_are_closed.
+Print Assumptions C15_minimal_path_is_accepted.
+Print Assumptions C15_nothing_is_accepted_when_unreachable.
 Print Assumptions C15_accepted_path_is_minimal.
 Print Assumptions C15_accepted_none_is_unreachable.
